@@ -150,7 +150,8 @@ Qed.
 Lemma inv5_proc : forall aw s stk s' stk',
   inv5 cfg (s, stk) -> effect aw s s' -> same_ctl s s' ->
   (stk <> [] \/ s_ready s <> []) ->
-  (forall x, In x (s_queue s') -> In x (s_queue s) \/ (e_type x = SimProcResume /\ e_phase x = AFTER /\ forall cl ph, e_why x <> WkClk cl ph)) ->
+  (forall x, In x (s_queue s') -> In x (s_queue s) \/
+     (e_type x = SimProcResume /\ (e_phase x = AFTER \/ (s_now s < e_time x)%Q) /\ forall cl ph, e_why x <> WkClk cl ph)) ->
   (forall x, In x (s_queue s) -> In x (s_queue s')) ->
   (forall pid cl g, In (TWake pid (WkClk cl AFTER) g) (s_ready s') -> In (TWake pid (WkClk cl AFTER) g) (s_ready s)) ->
   (* AWake entries only from the head task *)
@@ -170,7 +171,8 @@ Proof.
     + right. rewrite L. apply edge_logged_mono. exact El.
   - intros pid cl g Hin. rewrite L, C1. apply edge_logged_mono. apply (It pid cl g). apply Rd. exact Hin.
   - rewrite L, C1. intros E e He Te. apply (proj1 (edge_at_app _ new _ Ne)) in E.
-    destruct (Qn e He) as [Ho|(_ & Pa & _)]; [apply (Iq E e Ho Te) | right; exact Pa].
+    destruct (Qn e He) as [Ho|(_ & [Pa|Lt] & _)]; [apply (Iq E e Ho Te) | right; exact Pa |].
+    exfalso. rewrite Te in Lt. exact (Qlt_irrefl _ Lt).
   - rewrite L, C1, C2. intros E Hp. apply (proj1 (edge_at_app _ new _ Ne)) in E. exfalso. exact (NoEdgeNow Hp E).
   - rewrite L. apply log_ok4_app; [exact Il | exact Ne |].
     apply Forall_forall. intros e He. pose proof (proj1 (Forall_forall _ _) Fn e He) as [->|(pid & a & -> & Na)]; [exact I|].
@@ -200,11 +202,13 @@ Proof.
     pose proof (step_frame_ctl cfg f s) as C. rewrite Hsf in C. cbn [snd] in C.
     pose proof (frame_step_effect cfg f s s' F Hh) as Ef.
     apply (inv5_proc false s (f :: rest) s' (fs ++ rest) IH0 Ef C); [left; discriminate | | | |].
-    + intros x Hx. destruct (frame_step_bk cfg f s s' F) as [Q|pid q Q|pid c ph Q|pid m Q|pid Q]; rewrite Q in Hx; try (left; exact Hx).
-      apply q_insert_in in Hx. destruct Hx as [->|Hx]; [right | left; exact Hx].
-      split; [reflexivity|]. split; [reflexivity | intros; discriminate].
-    + intros x Hx. destruct (frame_step_bk cfg f s s' F) as [Q|pid q Q|pid c ph Q|pid m Q|pid Q]; rewrite Q; try exact Hx.
-      apply q_insert_in. right. exact Hx.
+    + intros x Hx. destruct (frame_step_bk cfg f s s' F) as [Q|pid q Q|pid c ph Q|pid m Q|pid Q|pid xi ph Q]; rewrite Q in Hx; try (left; exact Hx).
+      * apply q_insert_in in Hx. destruct Hx as [->|Hx]; [right | left; exact Hx].
+        split; [reflexivity|]. split; [left; reflexivity | intros; discriminate].
+      * apply q_insert_in in Hx. destruct Hx as [->|Hx]; [right | left; exact Hx].
+        split; [reflexivity|]. split; [right; simpl; apply next_tick_gt; apply extra_freq_pos | intros; discriminate].
+    + intros x Hx. destruct (frame_step_bk cfg f s s' F) as [Q|pid q Q|pid c ph Q|pid m Q|pid Q|pid xi ph Q]; rewrite Q; try exact Hx;
+        apply q_insert_in; right; exact Hx.
     + intros pid cl g Hin. destruct (frame_step_ready cfg f s s' _ F Hin) as [Hin'|B]; [exact Hin'|].
       destruct B as [(p & n & E)|[(p & k & g' & E)|(p & E)]]; inversion E.
     + intros new L t ph mt ro pid cl g Hin. exfalso.
